@@ -25,16 +25,33 @@ VERIF = os.path.dirname(os.path.dirname(os.path.abspath(__file__)))
 def load_corpus() -> List[dict]:
     sys.path.insert(0, VERIF)
     from selftest.corpus import VARIANTS
-    ids = [v["id"] for v in VARIANTS]
+    out = list(VARIANTS)
+    # independently seeded changes (sub-agents given only the property text): /verif/seeded/<id>/patch.diff
+    sdir = os.path.join(VERIF, "seeded")
+    if os.path.isdir(sdir):
+        for name in sorted(os.listdir(sdir)):
+            meta_p = os.path.join(sdir, name, "meta.json")
+            patch_p = os.path.join(sdir, name, "patch.diff")
+            if os.path.exists(meta_p) and os.path.exists(patch_p):
+                meta = json.load(open(meta_p))
+                out.append({"id": "seeded-" + name, "property": meta["breaks_property"], "what": meta.get("needs_to_manifest", ""),
+                            "expect": "fire" if meta.get("expected_detected", True) else "limit", "edits": [], "patch": patch_p})
+    ids = [v["id"] for v in out]
     assert len(ids) == len(set(ids)), "duplicate variant ids"
-    return VARIANTS
+    return out
 
 
-def make_copy(repo: str, edits: List[dict]) -> Tuple[Optional[str], Optional[str]]:
+def make_copy(repo: str, edits: List[dict], patch: Optional[str] = None) -> Tuple[Optional[str], Optional[str]]:
     """Scratch copy of the package with *edits* applied. Returns (dir, error)."""
     tmp = tempfile.mkdtemp(prefix="cinco-variant-")
     dst = os.path.join(tmp, "cincoconfig")
     shutil.copytree(os.path.join(repo, "cincoconfig"), dst, ignore=shutil.ignore_patterns("__pycache__"))
+    if patch:
+        import subprocess
+        r = subprocess.run(["patch", "-p1", "-s", "-i", patch], cwd=tmp, capture_output=True, text=True)
+        if r.returncode != 0:
+            shutil.rmtree(tmp, ignore_errors=True)
+            return None, "patch does not apply to the current tree: %s" % (r.stdout + r.stderr).strip()[:120]
     for e in edits:
         path = os.path.join(tmp, e["file"])
         try:
@@ -63,7 +80,7 @@ def run_variant(args) -> dict:
     t0 = time.time()
     res = {"id": variant["id"], "property": variant["property"], "expect": variant["expect"],
            "what": variant.get("what", "")}
-    tmp, err = make_copy(repo, variant["edits"])
+    tmp, err = make_copy(repo, variant["edits"], variant.get("patch"))
     if tmp is None:
         res["status"] = "inapplicable"
         res["detail"] = err
@@ -72,6 +89,11 @@ def run_variant(args) -> dict:
         # the variant must still be valid Python
         for e in variant["edits"]:
             _ast.parse(open(os.path.join(tmp, e["file"]), encoding="utf-8").read())
+        if variant.get("patch"):
+            for root, _, files in os.walk(os.path.join(tmp, "cincoconfig")):
+                for f in files:
+                    if f.endswith(".py"):
+                        _ast.parse(open(os.path.join(root, f), encoding="utf-8").read())
         reg = registry()
         pids = variant.get("check", [variant["property"]])
         fired = []
